@@ -188,6 +188,9 @@ def closure_cases(rng, ctx, reps=1):
             'complex': lambda: complex(0.5, -1.25), 'ndarray': lambda: np.array([1.5, 2.0]),
             'ndarray_c': lambda: np.array([1.5 + 0.5j, 2.0j]), 'npfloat': lambda: np.float64(2.5), 'npint': lambda: np.int64(2),
             'npcomplex': lambda: np.complex128(1 + 2j),
+            # complex numbers whose imaginary part vanishes are complex numbers all the same
+            'complex_im0': lambda: complex(2.5, 0.0), 'npcomplex_im0': lambda: np.complex128(3.0), 'complex_re0': lambda: complex(0.0, 1.5),
+            'npcomplex64': lambda: np.complex64(1.5 - 0.5j), 'negzero_im': lambda: complex(-0.5, -0.0),
         }
         subjects = {'obs': lambda: o[0], 'cobs': lambda: pe.CObs(o[0], o[1]), 'cobs_num_im': lambda: pe.CObs(o[0], 0.5)}
         for sname, sf in subjects.items():
